@@ -240,7 +240,7 @@ def match(s, o):
 
 
 def kind_ok(spec, obs):
-    return spec == obs or (spec == "WrongType" and obs == "NonProcedure")
+    return spec == obs or (spec == "WrongType" and obs == "NonProcedure") or ("|" in spec and obs in spec.split("|"))
 
 
 def outcome_ok(r, o):
